@@ -380,11 +380,22 @@ func (res *Result) describe(p *Probe) string {
 	ls, _ := res.Dump.Labels(p.Val)
 	var raw []string
 	if q, ok := res.State.PointerAnalysis.Queries[p.Val]; ok {
+		seen := map[string]bool{}
 		for _, l := range q.PointsTo().Labels() {
-			raw = append(raw, l.String())
+			s := l.String()
+			if v := l.Value(); v != nil && v.Parent() != nil {
+				s += "@" + v.Parent().Name() + ":" + v.Name()
+			}
+			if !seen[s] {
+				seen[s] = true
+				raw = append(raw, s)
+			}
 		}
 	}
 	sort.Strings(raw)
+	if len(raw) > 12 {
+		raw = append(raw[:12], fmt.Sprintf("… %d more", len(raw)-12))
+	}
 	return fmt.Sprintf("probe %d in %s: value %s = `%s` : %s   points-to {%s}  (%s)", p.ID, p.Fn.String(), p.Val.Name(), p.Val.String(),
 		p.Val.Type(), strings.Join(raw, ", "), strings.Join(ls, ";"))
 }
@@ -454,7 +465,7 @@ func MissedAliases(res *Result) []Missed {
 						Key:   fmt.Sprintf("%s/%s", pi.Val.String(), pj.Val.String()),
 						Short: fmt.Sprintf("address %#x was observed at probes %d and %d (type %s), MayAlias=false", a, ids[x], ids[y], pi.Val.Type()),
 						Text:  fmt.Sprintf("address %#x observed at both probes\n  %s\n  %s\nMayAlias = false\n", a, res.describe(pi), res.describe(pj)),
-						Case:  CaseOf(pi.Fn)})
+						Case:  sameCase(pi.Fn, pj.Fn)})
 				}
 				// allocation-site membership
 				for _, pq := range [][2]*Probe{{pi, pj}, {pj, pi}} {
@@ -480,6 +491,10 @@ func MissedAliases(res *Result) []Missed {
 			}
 		}
 	}
+	// report first the misses whose two probes lie in one generated case (the replay is then that case alone)
+	defer func() {
+		sort.SliceStable(missed, func(i, j int) bool { return missed[i].Case >= 0 && missed[j].Case < 0 })
+	}()
 	// IndirectQueries: what a probed **T cell held is an object probed elsewhere as *T
 	ids := make([]int, 0, len(res.ProbeDeref))
 	for id := range res.ProbeDeref {
@@ -525,6 +540,13 @@ func MissedAliases(res *Result) []Missed {
 		}
 	}
 	return missed
+}
+
+func sameCase(f, g *ssa.Function) int {
+	if c := CaseOf(f); c == CaseOf(g) {
+		return c
+	}
+	return -1
 }
 
 // FailText renders up to n failing rule instances.
@@ -671,6 +693,10 @@ func FocusOf(res *Result) []string {
 	}
 	d := res.Dump
 	for _, f := range res.Fails {
+		if f.Kind == "iq" { // Idx is a register here, not an instruction
+			add("pp", "field", "struct")
+			continue
+		}
 		if f.Fn >= len(d.Funcs) || f.Idx >= len(d.Code[f.Fn]) {
 			continue
 		}
@@ -701,7 +727,7 @@ func FocusOf(res *Result) []string {
 		case *ssa.MakeClosure:
 			add("closure", "bound")
 		case *ssa.Field:
-			add("struct")
+			add("struct-rvalue", "struct")
 		case *ssa.Panic:
 			add("panic")
 		case *ssa.Return:
@@ -732,8 +758,8 @@ func FocusOf(res *Result) []string {
 			}
 		}
 	}
-	if len(out) > 8 {
-		out = out[:8]
+	if len(out) > 10 {
+		out = out[:10]
 	}
 	return out
 }
